@@ -77,18 +77,27 @@ def run(P: Program, R: Report, tier: str) -> None:
     ]
     R.not_decided += ["partition preservation per frame and label equality per track as values"]
     f = P.func_named("ensure_unique_labels")
-    # the offset: addend of an in-place += on a frame slice inside the loop, reassigned in the loop
+    # the running offset: a variable initialised before the frame loop and reassigned inside it, whose value is
+    # what gets added to the labels of a frame (directly, or through a helper it is passed to)
     loops = [x for x in ast.walk(f.node) if isinstance(x, ast.For)]
-    off = None
+    cands = []
     for lp in loops:
-        for s in ast.walk(lp):
-            if isinstance(s, ast.AugAssign) and isinstance(s.op, ast.Add) and isinstance(s.target, ast.Subscript) and isinstance(s.value, ast.Name):
-                off = (lp, s.value.id, s)
-    if off is None:
-        raise AnalysisError("ensure_unique_labels: offset variable not found")
-    lp, v, use = off
-    reassign = [s for s in ast.walk(lp) if isinstance(s, (ast.Assign, ast.AugAssign)) and any(isinstance(t, ast.Name) and t.id == v for t in (s.targets if isinstance(s, ast.Assign) else [s.target]))]
-    R.check(bool(reassign), "R19.1", f, lp, f"the offset `{v}` is advanced inside the frame loop", "offset never advanced", via="syntax")
+        before = {st.targets[0].id for st in f.node.body if isinstance(st, ast.Assign) and isinstance(st.targets[0], ast.Name) and st.lineno < lp.lineno and isinstance(st.value, ast.Constant)}
+        for st in ast.walk(lp):
+            tg = st.targets if isinstance(st, ast.Assign) else ([st.target] if isinstance(st, ast.AugAssign) else [])
+            for t in tg:
+                if isinstance(t, ast.Name) and t.id in before:
+                    used_as_addend = any(
+                        (isinstance(u_, ast.AugAssign) and isinstance(u_.op, ast.Add) and isinstance(u_.value, ast.Name) and u_.value.id == t.id)
+                        or (isinstance(u_, ast.Call) and any(isinstance(a_, ast.Name) and a_.id == t.id for a_ in u_.args) and call_name(u_) not in ("max", "maximum", "int", "min"))
+                        for u_ in ast.walk(lp))
+                    if used_as_addend:
+                        cands.append((lp, t.id, st))
+    if not cands:
+        R.undecided("R19.1", f, f.node, "the running offset of ensure_unique_labels", "offset variable not recognised: not decided")
+    reassign = [c_[2] for c_ in cands]
+    v = cands[0][1] if cands else "?"
+    lp = cands[0][0] if cands else None
     for s in reassign:
         mono = False
         if isinstance(s, ast.AugAssign) and isinstance(s.op, ast.Add):
@@ -97,7 +106,6 @@ def run(P: Program, R: Report, tier: str) -> None:
             val = s.value
             for sub in ast.walk(val):
                 if isinstance(sub, ast.Call) and call_name(sub) in ("max", "maximum") and any(isinstance(a, ast.Name) and a.id == v for a in sub.args):
-                    # only value-preserving wrappers (int(), float()) around the maximum
                     outer = val
                     while isinstance(outer, ast.Call) and outer is not sub and call_name(outer) in ("int", "float") and len(outer.args) == 1:
                         outer = outer.args[0]
@@ -148,11 +156,15 @@ def run(P: Program, R: Report, tier: str) -> None:
         R.check(not whole, "R19.2", g, whole[0] if whole else g.node, "the source array is never used as a whole-array index (per-frame lookups only)",
                 "a lookup table indexed by the whole segmentation ignores the time frame", via="provenance")
         # counter incremented once per component
-        comp_loops = [x for x in ast.walk(g.node) if isinstance(x, ast.For) and "connected_components" in norm(x.iter)]
+        from ..resolve import Resolver
+
+        rsg = Resolver(P, g)
+        comp_loops = [x for x in ast.walk(g.node) if isinstance(x, ast.For) and "connected_components" in rsg.text(x.iter)]
         okc = False
         for lp in comp_loops:
             incs = [s for s in lp.body if isinstance(s, ast.AugAssign) and isinstance(s.op, ast.Add) and norm(s.value) == "1"]
-            okc = len(incs) == 1
+            enum = isinstance(lp.iter, ast.Call) and call_name(lp.iter) == "enumerate" and any(k.arg == "start" and norm(k.value) == "1" for k in lp.iter.keywords)
+            okc = len(incs) == 1 or enum
         R.check(okc, "R19.2", g, g.node, "the label counter advances exactly once per component", "", via="syntax")
         cut = any("remove_edges_from" in norm(s) or "remove_edge(" in norm(s) for s in ast.walk(g.node) if isinstance(s, ast.Call))
         R.check(cut, "R19.2", g, g.node, "division edges are removed before components are taken", "", via="syntax")
